@@ -4,3 +4,4 @@ import GoJson.Gen.Facts
 import GoJson.Props.C16
 import GoJson.Props.C17
 import GoJson.Props.C05
+import GoJson.Props.C18
